@@ -247,12 +247,12 @@ def run(tier, seed):
         v.tie_failure("prove: " + f)
     v.coverage.update(vplib.proof_coverage(
         pr, "make -C coq Properties/C09.vo && coqc Properties/C09.v (Print Assumptions) && tools/props/c09.py correspondence", TRUSTED))
-    ok, out = vplib.cargo_build("debug")
+    ok, out = vplib.cargo_build("debug", bins=["numop"])
     if not ok:
         v.tie_failure("harness build failed: " + out[-400:])
     profiles = ["debug"]
     if tier == "thorough":
-        okr, outr = vplib.cargo_build("release")
+        okr, outr = vplib.cargo_build("release", bins=["numop"])
         if okr:
             profiles.append("release")
         else:
@@ -328,7 +328,7 @@ def replay(obj):
     if not cases:
         print("replay names a broken tie, not an input:", obj.get("no_longer_checks"))
         return run("quick", obj.get("seed", 0))
-    ok, out = vplib.cargo_build("debug")
+    ok, out = vplib.cargo_build("debug", bins=["numop"])
     impl, model, err = run_pair(cases)
     rc = 0
     for line in impl or []:
